@@ -586,6 +586,8 @@ class Effects:
                 tgts = n.targets
             for t in tgts:
                 if isinstance(t, (ast.Subscript, ast.Attribute)):
+                    if isinstance(t, ast.Attribute) and t.attr.startswith("_"):
+                        continue  # protected attribute of the collection object itself, not a data key
                     bt = self.calls.type_of(t.value, fi, env)
                     if bt in SYNCED_TYPES:
                         out.append(Effect("docmut", f"{bt.split(':')[-1]}[...]=", fi, n, t.value))
